@@ -24,11 +24,11 @@ structure Gram where
   GG : Mat
 
 /-- the three Gram matrices of `func2func` (Fraction branch): open Newton–Cotes with
-`olddeg + newdeg + 3` nodes on every span of the merged knots, scaled by the span length -/
+`2·max(olddeg, newdeg) + 1` nodes on every span of the merged knots, scaled by the span length -/
 def gramMatrices (oldk : KV) (oldW : Option (List Rat)) (newk : KV) (newW : Option (List Rat)) :
     Except Err Gram := do
   let allknots := isort (dedup (oldk.knots ++ newk.knots))
-  let n := oldk.deg + newk.deg + 3
+  let n := 2 * max oldk.deg newk.deg + 1
   let nodes0 := openLinspace n
   let integ ← exceptOfOption .other (openRule? n)
   let z (r c : Nat) := zeros r c
@@ -67,8 +67,9 @@ def func2func (oldk : KV) (oldW : Option (List Rat)) (newk : KV) (newW : Option 
     let QF := matMul GGinv (matMul GT LLinv)
     let T := matAdd (matMul QG g.GF) (matMul QF F)
     let Tt := transpose T
+    let TGF := matMul Tt g.GF
     let E := matScale (1 / 2)
-      (matAdd (matSub g.FF (matScale 2 (matMul Tt g.GF))) (matMul Tt (matMul g.GG T)))
+      (matAdd (matSub (matSub g.FF TGF) (transpose TGF)) (matMul Tt (matMul g.GG T)))
     return (T, E)
 
 def spline2spline (oldk newk : KV) (fitNodes : Option (List Rat)) : Except Err (Mat × Mat) :=
